@@ -70,6 +70,9 @@ def unary(rng, n, family):
         ops += ['fmap', 'fmap', 'fmap', 'catch', 'catch']
     op = rng.choice(ops)
     if op == 'map':
+        if rng.random() < 0.15:
+            w = rng.choice([1, 2])
+            return {'op': 'pmap', 'f': rng.choice(['inc', 'wrap']), 'w': w, 'bs': rng.randint(w, 3)}
         return {'op': 'map', 'f': rng.choice(['inc', 'wrap', 'pair'])}
     if op == 'fmap':
         return {'op': 'fmap', 'p': pred(rng, n), 'cls': rng.choice(FAIL)}
